@@ -50,7 +50,7 @@ def run(c):
         "1-6 recipients refused at RCPT, the message then refused at DATA (or per accepted recipient) or at Commit, error values "
         "generated from maddy's wrapping primitives (88% coherent, incl. annotations without enhanced code), senders null / rewritten / IDN / EAI, recipients incl. sibling "
         "chains, several failed members of one alias, two spellings of one mailbox differing in case, ASCII / upper-case / mixed-case / A-label / U-label / quoted / long / EAI spellings, local parts that are NOT in NFC "
-        "(combining sequence, U+212B, conjoining jamo, decomposed inside a quoted string), with compatibility / full-width characters, with U+00DF / U+0130 in mixed case - for recipients, rewrite targets and senders, the domain-less postmaster (gen), HELO names incl. unconvertible ones, bounce pipeline failing at Start / AddRcpt / Body / Commit; "
+        "(combining sequence, U+212B, conjoining jamo, decomposed inside a quoted string), with compatibility / full-width characters, with U+00DF / U+0130 in mixed case - for recipients, rewrite targets and senders, the domain-less postmaster (gen), HELO names incl. unconvertible ones (Received-From-MTA left out, the report still generated), bounce pipeline failing at Start / AddRcpt / Body / Commit; "
         "every report is serialised, parsed with net/mail + mime/multipart + net/textproto, rendered canonically and compared with the Lean model's report, the whole bounce-call trace "
         "and retry sets included; (loop) two real queues that are each other's bounce route with targets refusing everything; distinct = distinct op lines",
         explanation="theorems over all recipient lists, error values, rewrite maps, namings, IDNA behaviours and failing stages; model tied to queue.go/dsn.go by differential runs through the real queue "
